@@ -21,9 +21,12 @@ def obsRun {α} (ob : Obs α) (evs : List (Cmd α)) : Obs α := evs.foldl obsSte
 def Obs.empty {α} : Obs α := ⟨fun _ => none, []⟩
 
 /-- run a local splitter over the items of one parent lifetime and observe its commands -/
-def LSplit.runObs {α} (ls : LSplit α) : ls.τ × Obs α → List α → ls.τ × Obs α
+def runObsRaw {τ α : Type} (next : τ → α → τ × List (Cmd α)) : τ × Obs α → List α → τ × Obs α
   | st, [] => st
-  | st, x :: xs => let r := ls.next st.1 x; LSplit.runObs ls (r.1, obsRun st.2 r.2) xs
+  | st, x :: xs => runObsRaw next ((next st.1 x).1, obsRun st.2 (next st.1 x).2) xs
+
+def LSplit.runObs {α} (ls : LSplit α) (st : ls.τ × Obs α) (xs : List α) : ls.τ × Obs α :=
+  runObsRaw ls.next st xs
 
 /-- windows (inner lifetimes) closed while the items are consumed, then at completion -/
 def LSplit.windows {α} (ls : LSplit α) (xs : List α) : List (List α) × List (List α) :=
